@@ -113,15 +113,23 @@ def run(chk):
             # callers pass (an output buffer, usually), and every caller is analysed through it (inlined or followed) with its own
             # arguments, so a write that reaches a caller's argument is still reported there
             new_private = fi.qualname not in pinned() and fi.name.startswith("_") and not fi.name.startswith("__")
+            # NumPy's convention for an output buffer: a parameter `out=None` of a function the pinned tree does not have is where the
+            # result is written when the caller asks for it -- an output, not an input
+            out_params = {"p:" + p_ for p_ in (list(fi.params) + list(fi.kwonly)) if p_ == "out" and p_ in fi.defaults and
+                          isinstance(fi.defaults[p_], ast.Constant) and fi.defaults[p_].value is None} if fi.qualname not in pinned() else set()
             for e in I.events:
                 if e.kind == "mutation":
                     pt = param_tokens(e.origins)
-                    if pt and new_private:
+                    if pt and set(pt) <= out_params:
+                        notes.append("%s writes its result into the output buffer `out` when one is passed (NumPy convention)" % label)
+                    elif pt and new_private:
                         notes.append("%s (new private helper) writes into its parameter %s: judged at its callers" % (label, pt))
                     elif pt:
                         bad.append((e, "in-place %s on value aliasing parameter %s" % (e.how, pt)))
                 elif e.kind == "attr-write" and e.is_param:
-                    if e.attr in INPUT_ATTRS:
+                    if e.attr in INPUT_ATTRS and new_private:
+                        notes.append("%s (new private helper) stores to .%s of its parameter object: judged at its callers" % (label, e.attr))
+                    elif e.attr in INPUT_ATTRS:
                         bad.append((e, "store to .%s of a parameter object" % e.attr))
                     elif e.attr in MUT_NOTE_ONLY:
                         notes.append("%s attaches .%s to its argument (cache, not data)" % (label, e.attr))
